@@ -1,7 +1,7 @@
 (* C21 — Reflogs read back forwards and backwards identically: the statements. *)
 From Coq Require Import List Arith.
 From GixV.Base Require Import Bytes BytesFacts Outcome.
-From GixV.C21 Require Import Model Spec ProofsRev ProofsIter ProofsSmall ProofsRT1 ProofsRT2 ProofsRT3 ProofsRT4 ProofsRT5.
+From GixV.C21 Require Import Model Spec ProofsRev ProofsIter ProofsSmall ProofsRT1 ProofsRT2 ProofsRT3 ProofsRT4 ProofsRT5 ProofsRT6.
 Import ListNotations.
 Local Open Scope nat_scope.
 
@@ -110,6 +110,29 @@ Theorem appended_entries_read_back : forall ls, Forall wf_entry ls ->
     forall buf, buf <> [] -> maxline_nl (flines f) <= length buf ->
       collect (reverse_fuel f) f (init_state f buf) = Ok (rev (map RLine ls)).
 Proof. exact log_roundtrip. Qed.
+
+(* The same for the bytes a transaction appends (reflog_create_or_append: no TAB when the message is empty):
+   every well-formed entry is appended as one line that parses back to the entry ... *)
+Theorem appended_line_roundtrip : forall l, wf_entry l ->
+  exists body, append_write l = Ok (body ++ [LF]) /\ nolf body /\
+    from_bytes body = Ok (as_ref l) /\ own (from_bytes body) = RLine l.
+Proof. exact append_roundtrip. Qed.
+
+(* ... and a reflog grown by appending well-formed entries one by one reads forwards as exactly these entries and
+   backwards (buffer >= longest line incl. LF) as exactly these entries reversed. *)
+Theorem reflog_of_appended_entries_reads_back : forall ls, Forall wf_entry ls ->
+  exists f, append_all ls = Ok f /\
+    forward f = map (fun l => Ok (as_ref l)) ls /\
+    forall buf, buf <> [] -> maxline_nl (flines f) <= length buf ->
+      collect (reverse_fuel f) f (init_state f buf) = Ok (rev (map RLine ls)).
+Proof. exact append_log_roundtrip. Qed.
+
+(* known finding append-message-with-newline, on the model: outside the well-formed domain (LF in the message)
+   the transaction's append writes two lines for one entry *)
+Theorem append_message_with_newline_refuted :
+  exists l, ~ wf_entry l /\ existsb (fun b => beqb b LF) (l_msg l) = true /\
+    match append_write l with Ok f => length (forward f) = 2 | _ => False end.
+Proof. exact append_newline_refuted. Qed.
 
 (* Time::write_to / the time tuple of signature::decode alone *)
 Theorem time_roundtrip_full : forall t, wf_time t ->
